@@ -194,7 +194,7 @@ def o1c(h):
     h.encoded(C.get_closest_distance)
     n = 8 if h.thorough() else 4
     h.bounds('%d candidate edges, every combination of real signed distances' % n)
-    h.outside('Contact.py neighbour search (get_potential_interaction_list / min_dist_squared) is not encoded; closest edge / field weights: '
+    h.outside('neighbour search: O1.neighbour_search_min_dist / O1.neighbour_search_top_k; closest edge / field weights: '
               'O1.closest_edge_and_field_weights; smoothed two-edge distance: O6.smooth_distance')
     h.assume_note('stub: EdgeCpp.cpp_distance(edge_k, p) is replaced at trace and replay time by the arbitrary real edge_k[0,0] '
                   '(its actual value is the subject of O1.cpp_distance); only the selection logic of get_closest_distance is encoded here')
@@ -234,7 +234,7 @@ def o1d(h):
               C.get_closest_distance, C.get_side_coordinates, E.cpp_line)
     h.bounds('%d main-surface candidate edges (top of the %dx2 structured mesh) and one integration edge (a bottom edge) with its 2 Gauss points; all nodal coordinates '
              'and displacements symbolic (any geometry, collinear or kinked), connectivity concrete; every combination of per-(edge, point) signed distances' % (nM, nM + 1))
-    h.outside('neighbour search (get_potential_interaction_list / min_dist_squared: argsort of squared distances), friction potential')
+    h.outside('neighbour search (O1.neighbour_search_min_dist / O1.neighbour_search_top_k), friction potential')
     h.assume_note('stub: EdgeCpp.cpp_distance(edge, q) is replaced at trace and replay time by the arbitrary real edge[0,0] - q[0] '
                   '(any real per edge since the first-node coordinates are free, shifted per point; the true value is the subject of O1.cpp_distance); cpp_line and all Contact code are the real ones',
                   'symbolic denominators |b-a|^2 of the candidate edges are assumed non-zero (non-degenerate deformed edges)')
@@ -289,6 +289,183 @@ def o1d(h):
                 atoms.append(Eq([xq[0][q][0], xq[0][q][1]], _pt(e, s0(w[0][q])), when=chosen[k], name='q%d.edge%d_reconstructed_point_is_on_the_selected_edge' % (q, k)))
         return pre, atoms
     c.prove('closest_edge', spec, cap=40)
+
+
+# ---- neighbour search (Contact.min_dist_squared / get_potential_interaction_list)
+_sort0 = jx.OTHER['sort']
+
+
+def _sort_keyed(ctx, eqn, iv):
+    """lax.sort with one key operand and payload operands (jnp.argsort = sort(keys, iota)), any batch shape, symbolic keys:
+    stable bubble network along `dimension` (an adjacent pair is swapped only if the right key is strictly smaller)"""
+    if len(iv) == 1 and iv[0].ndim == 1:
+        return _sort0(ctx, eqn, iv)
+    if eqn.params.get('num_keys', 1) != 1:
+        raise jx.JXError('symbolic sort with several keys')
+    dim = eqn.params['dimension']
+    ms = [onp.moveaxis(v, dim, -1).copy() for v in iv]
+    n = ms[0].shape[-1]
+    for idx in (onp.ndindex(*ms[0].shape[:-1]) if ms[0].ndim > 1 else [()]):
+        rows = [[m[idx + (k,)] for k in range(n)] for m in ms]
+        for a in range(n):
+            for b in range(n - 1 - a):
+                sw = jx.s_lt(rows[0][b + 1], rows[0][b])
+                for r in rows:
+                    lo, hi = v_if(sw, r[b + 1], r[b]), v_if(sw, r[b], r[b + 1])
+                    r[b], r[b + 1] = lo, hi
+        for m, r in zip(ms, rows):
+            for k in range(n):
+                m[idx + (k,)] = r[k]
+    return [onp.moveaxis(m, -1, dim) for m in ms]
+
+
+jx.OTHER['sort'] = _sort_keyed
+
+
+def _search_setup(nM):
+    M = _mods()
+    S = M['Surface']
+    mesh = M['Mesh'].construct_structured_mesh(nM + 1, 2, [0., float(nM)], [0., 1.])
+    coords, conns = onp.asarray(mesh.coords), onp.asarray(mesh.conns)
+    top = onp.asarray(S.create_edges(mesh.coords, mesh.conns, lambda xs: bool(onp.all(onp.asarray(xs)[:, 1] > 1. - 1e-8))))
+    bot = onp.asarray(S.create_edges(mesh.coords, mesh.conns, lambda xs: bool(onp.all(onp.asarray(xs)[:, 1] < 1e-8))))
+    assert top.shape == (nM, 2) and bot.shape == (nM, 2)
+    nodes = lambda e: [int(conns[e[0]][e[1]]), int(conns[e[0]][(e[1] + 1) % 3])]
+    return mesh, coords, conns, top, bot, nodes
+
+
+def _cur(X, U, n):
+    """current position of node n: reference + ITS OWN displacement"""
+    return [v_add(X[n][d], U[n][d]) for d in range(2)]
+
+
+def _pair_d2(X, U, nodes1, nodes2):
+    """|x_i(edge2) - x_j(edge1)|^2 for the 4 end-point pairs, each edge moved by its own nodes' displacement (order: i over edge2, j over edge1)"""
+    return [_d2(_cur(X, U, i), _cur(X, U, j)) for i in nodes2 for j in nodes1]
+
+
+def _vmin_list(xs):
+    r = xs[0]
+    for x in xs[1:]:
+        r = v_min(r, x)
+    return r
+
+
+@obligation(P, 'O1.neighbour_search_min_dist', cap=200)
+def o1e(h):
+    """Contact.min_dist_squared(edge1, edge2, mesh, coords, disp) = min over the 4 end-point pairs of |x_i(edge2) - x_j(edge1)|^2 where every edge's
+    CURRENT end points are reference + ITS OWN nodes' displacement (exact identity against an oracle), for symbolic coordinates and displacement field"""
+    M = _mods()
+    C, S = M['Contact'], M['Surface']
+    h.encoded(C.min_dist_squared, S.get_field_index, S.eval_field)
+    nM = 3
+    mesh, coords, conns, top, bot, nodes = _search_setup(nM)
+    h.bounds('%dx2 structured mesh, connectivity concrete; nodal coordinates and displacement field symbolic (all reals); edge pairs: every (main = top edge, '
+             'integration = bottom edge) pair, two adjacent top edges (shared node) and an edge with itself' % (nM + 1))
+    h.outside('other topologies (the code indexes conns generically)')
+    jconns = jnp.asarray(conns)
+    pairs = [(top[a], bot[b]) for a in range(nM) for b in range(nM)] + [(top[0], top[1]), (top[1], top[1])]
+    if not h.thorough():
+        pairs = [pairs[0], pairs[nM + 2], pairs[2 * nM], pairs[-2], pairs[-1]]
+    smp = lambda rng: [coords + 0.3 * rng.normal(size=coords.shape), rng.normal(size=coords.shape)]
+    for e1, e2 in pairs:
+        n1, n2 = nodes(e1), nodes(e2)
+        lab = 'edge1=%s,edge2=%s' % (list(map(int, e1)), list(map(int, e2)))
+
+        def fn(X, U, e1=e1, e2=e2):
+            return C.min_dist_squared(jnp.asarray(e1), jnp.asarray(e2), mesh._replace(coords=X, conns=jconns), X, U)
+        c = Case(h, fn, dict(X=coords, U=_ex_disp(coords)), sampler=smp, label=lab)
+
+        def spec(i, o, n1=n1, n2=n2):
+            ds = _pair_d2(i['X'], i['U'], n1, n2)
+            r = s0(o)
+            return [], [Eq(r, _vmin_list(ds), name='is_min_over_end_point_pairs_each_edge_with_its_own_displacement', scale=v_add(1.0, _vmin_list(ds)))]
+        c.prove(lab, spec, cap=30)
+
+
+@obligation(P, 'O1.neighbour_search_top_k', cap=300)
+def o1f(h):
+    """Contact.get_potential_interaction_list(surfaceM, surfaceI, mesh, disp, maxNeighbors=k): for every integration edge the list holds k DISTINCT main edges,
+    nearest first, and every listed main edge's min-dist (current configuration: each edge with its own displacement) is <= that of every main edge not listed.
+    Composed with O1.closest_edge_and_field_weights / O1.closest_of_several_edges / O1.cpp_distance: the reported gap is the distance to the main surface
+    whenever the closest edge is among the k best by end-point distance."""
+    M = _mods()
+    C = M['Contact']
+    h.encoded(C.get_potential_interaction_list, C.min_dist_squared)
+    nM, nI, K = (5, 2, 3) if h.thorough() else (4, 2, 2)
+    mesh, coords, conns, top, bot, nodes = _search_setup(nM)
+    h.bounds('%d main edges (top of the %dx2 structured mesh), %d integration edge(s) (bottom), maxNeighbors = %d; nodal coordinates and displacement field symbolic '
+             '(all reals: any relative sliding / deformation), connectivity concrete' % (nM, nM + 1, nI, K))
+    h.outside('larger surfaces and maxNeighbors; ties are ordered by the stable argsort (not claimed)')
+    jconns, jtop, jI = jnp.asarray(conns), jnp.asarray(top), jnp.asarray(bot[:nI])
+
+    def fn(X, U):
+        return C.get_potential_interaction_list(jtop, jI, mesh._replace(coords=X, conns=jconns), U, K)
+    smp = lambda rng: [coords + 0.3 * rng.normal(size=coords.shape), 1.5 * rng.normal(size=coords.shape)]
+    c = Case(h, fn, dict(X=coords, U=_ex_disp(coords)), sampler=smp, label='interaction_list')
+
+    def oracle_D(X, U):
+        return [[_vmin_list(_pair_d2(X, U, nodes(top[m]), nodes(bot[a]))) for m in range(nM)] for a in range(nI)]
+
+    def atoms_from(o, Ds):
+        atoms = []
+        for a in range(nI):
+            D = Ds[a]
+            sc = v_add(1.0, v_sum([v_abs(d) for d in D]))
+            is_m = [[v_and(v_eq(o[a][k][0], float(top[m][0])), v_eq(o[a][k][1], float(top[m][1]))) for m in range(nM)] for k in range(K)]
+            listed = [v_or(*[is_m[k][m] for k in range(K)]) for m in range(nM)]
+            atoms.append(Holds([v_or(*is_m[k]) for k in range(K)], name='I%d.entries_are_main_edges' % a))
+            atoms.append(Holds([v_not(v_and(is_m[k][m], is_m[k2][m])) for m in range(nM) for k in range(K) for k2 in range(k + 1, K)], name='I%d.entries_are_distinct' % a))
+            for m in range(nM):
+                for m2 in range(nM):
+                    if m == m2:
+                        continue
+                    atoms.append(Le(D[m], D[m2], when=v_and(listed[m], v_not(listed[m2])), name='I%d.listed_main%d_not_farther_than_unlisted_main%d' % (a, m, m2), scale=sc))
+                    atoms.append(Le(D[m], D[m2], when=v_or(*[v_and(is_m[k][m], is_m[k + 1][m2]) for k in range(K - 1)]), name='I%d.nearest_first[main%d,main%d]' % (a, m, m2), scale=sc))
+        return atoms
+
+    def spec(i, o):
+        return [], atoms_from(o, oracle_D(i['X'], i['U']))
+
+    # cut by renaming: the sort keys inside the encoded output are (syntactically) the oracle's min-dist terms - O1.neighbour_search_min_dist proves that
+    # identity per edge pair; here they are renamed to free reals, which generalises the query (true for all key values => true for these terms) and leaves
+    # pure order logic.  If the renaming does not remove every input variable (the code's keys are NOT the oracle's terms), the direct query is asked instead.
+    import z3
+    Dz = oracle_D(c.inp['X'], c.inp['U'])
+    fresh = [[z3.Real('abs!D_I%d_main%d' % (a, m)) for m in range(nM)] for a in range(nI)]
+    rules = [(sym.toz(Dz[a][m]), fresh[a][m]) for a in range(nI) for m in range(nM)]
+    o_abs = onp.empty(c.out.shape, dtype=object)
+    for idx in onp.ndindex(*c.out.shape):
+        o_abs[idx] = z3.substitute(sym.toz(c.out[idx]), *rules)
+    left = set()
+    for t in o_abs.ravel():
+        left |= _vars_of(t)
+    total = all(v.startswith('abs!') for v in left)
+    h.fact('top_k.sort_keys_are_the_oracle_min_dists', True, 'renaming the oracle min-dist terms inside the encoded output %s'
+           % ('removes every coordinate/displacement variable: the selection depends on the inputs only through these %d terms' % len(rules) if total else
+              'leaves input variables %s: direct queries are used' % sorted(left)[:6]), nontrivial=False)
+    if not total:
+        # bounded direct attempt (model finding): the selection atoms of the first integration edge, small caps so that the obligation ends well inside its wall cap
+        _, dat = spec(c.inp, c.out)
+        for k, atom in enumerate(dat):
+            if not atom.name.startswith('I0.listed_'):
+                continue
+
+            def concrete_d(vals, k=k):
+                ci, co = c.conc_inputs(vals), c.real(vals)
+                _, catoms = spec(ci, co)
+                return True, catoms[k], dict(outputs=onp.asarray(co).tolist())
+            h.prove('top_k.' + atom.name, [], atom, inputs=c.inp, concrete=concrete_d, cap=6, vac_cap=3, order=('nlsat', 'core'),
+                    note='direct query: the encoded sort keys are not the oracle min-dist terms')
+        return
+    abs_atoms = atoms_from(o_abs, fresh)
+    for k, atom in enumerate(abs_atoms):
+        def concrete(vals, k=k):
+            ci, co = c.conc_inputs(vals), c.real(vals)
+            _, catoms = spec(ci, co)
+            return True, catoms[k], dict(outputs=onp.asarray(co).tolist())
+        h.prove('top_k.' + atom.name, [], atom, inputs=c.inp, concrete=concrete, cap=120 if h.thorough() else 40,
+                note='sort keys renamed to free reals (pure order logic over %d reals)' % len(rules))
 
 
 # ============================================================================================ O2 / O3 level sets
